@@ -323,20 +323,21 @@ Lemma finish_ok : forall ends s, st_ok nodes init s -> Forall (end_ok init (JL s
   st_ok nodes init (finish init s ends) /\ JL (finish init s ends) = JL s.
 Proof.
   intros ends s Hst He. unfold finish. generalize (last_instr init s). intros last.
+  generalize (existsb (Nat.eqb (il init s)) (cj s)). intros tg.
   assert (G : forall acc, st_ok nodes init acc -> JL acc = JL s ->
               st_ok nodes init
                 (fold_left (fun acc e => match last with
-                                         | Some li => if instr_eqb li e && instruction_eqb (fst e) I_EndExpression then acc else emit acc e None
+                                         | Some li => if instr_eqb li e && instruction_eqb (fst e) I_EndExpression && negb tg then acc else emit acc e None
                                          | None => emit acc e None end) ends acc) /\
               JL (fold_left (fun acc e => match last with
-                                          | Some li => if instr_eqb li e && instruction_eqb (fst e) I_EndExpression then acc else emit acc e None
+                                          | Some li => if instr_eqb li e && instruction_eqb (fst e) I_EndExpression && negb tg then acc else emit acc e None
                                           | None => emit acc e None end) ends acc) = JL s).
   { induction He as [|e ends Hee _ IH]; intros acc Ha Hj; cbn [fold_left]; [auto|].
     assert (Hem : st_ok nodes init (emit acc e None) /\ JL (emit acc e None) = JL s).
     { split; [|rewrite jl_emit; exact Hj]. apply st_ok_emit; [exact Ha | | exact I].
       rewrite Hj. apply end_ok_op. exact Hee. }
     destruct last as [li|].
-    - destruct (instr_eqb li e && instruction_eqb (fst e) I_EndExpression); [apply IH; auto | apply IH; tauto].
+    - destruct (instr_eqb li e && instruction_eqb (fst e) I_EndExpression && negb tg); [apply IH; auto | apply IH; tauto].
     - apply IH; tauto. }
   apply G; auto.
 Qed.
